@@ -29,6 +29,9 @@ type fieldRec struct {
 	DOff   uint32 `json:"doff"`
 	DWC    uint16 `json:"dwc"`
 	PC     uint16 `json:"pc"`
+	EltDWC  uint16 `json:"eltdwc"`
+	EltPC   uint16 `json:"eltpc"`
+	EltList bool   `json:"eltlist"`
 }
 
 type nodeRec struct {
@@ -278,6 +281,11 @@ func runC15(out *Out, r *Rand, tier string, replay []string) {
 					data, ptrs = genStruct(r, f, active)
 					lines = append(lines, caseLine("has", f, data, ptrs, "-"))
 				}
+				if (f.Kind == "struct" || f.Kind == "any" || f.Kind == "iface") && f.DWC <= 1024 && f.PC <= 1024 {
+					// pipelined accessor: slot null (default applies) and non-null, any discriminant
+					data, ptrs = genStruct(r, f, 2)
+					lines = append(lines, caseLine("future", f, data, ptrs, "-"))
+				}
 				if f.Kind == "text" {
 					data, ptrs = genStruct(r, f, active)
 					lines = append(lines, caseLine("getbytes", f, data, ptrs, "-"))
@@ -290,6 +298,15 @@ func runC15(out *Out, r *Rand, tier string, replay []string) {
 					}
 					lines = append(lines, caseLine("new", f, data, ptrs, arg))
 				}
+			}
+			// List(struct) fields: NewX allocates elements of the size of the schema's element type
+			if f.EltList && f.DWC <= 1024 && f.PC <= 1024 {
+				zp := strings.TrimSuffix(strings.Repeat("0,", int(f.PC)), ",")
+				if f.PC == 0 {
+					zp = "-"
+				}
+				lines = append(lines, fmt.Sprintf("lsize %s %s %s list %d %d %d %d %s %s 1", f.Req, f.Type, f.Name,
+					f.EltDWC, f.EltPC, f.Disc, f.DOff, Hx(make([]byte, int(f.DWC)*8)), zp))
 			}
 			// the getter on an all-zero struct of the schema's size returns the default
 			if hasGet && (f.Disc == 65535 || f.Disc == 0) && (f.DWC <= 20000 || tier == "thorough") {
